@@ -1,12 +1,15 @@
 (* Property C17: the compiler's big-number arithmetic is exact.
-   This file contains only the property theorems, each closed by [exact] of a lemma of
-   Proofs*.v and followed by Print Assumptions.
+   This file contains only the property theorems, each closed by [exact] of lemmas of
+   Proofs*.v and followed by Print Assumptions (related operations are grouped in one theorem:
+   every Print Assumptions walks the whole proof term, grouping keeps the quick check fast).
    wf x: BINT_SIZE limbs, each in [0, 2^BINT_WORDBITS);  uval: unsigned value;  sval: two's
-   complement value;  all arithmetic is exact arithmetic reduced mod 2^BINT_BITS. *)
+   complement value;  all arithmetic is exact arithmetic reduced mod 2^BINT_BITS.
+   Lua integers: in_i64, wrap64 (two's complement wrap), u64 (unsigned reading). *)
 From C17 Require Import Model Model2 Model3 Proofs ProofsLib ProofsArith ProofsBits ProofsConv ProofsShift
   ProofsMisc ProofsDiv ProofsDiv2 ProofsPow ProofsText ProofsText2 ProofsText3.
 Local Open Scope Z_scope.
 
+(* ---- ring operations ---- *)
 Theorem C17_add_exact : forall x y, wf x -> wf y ->
   wf (badd x y) /\ uval (badd x y) = (uval x + uval y) mod 2 ^ BINT_BITS.
 Proof. exact add_correct. Qed.
@@ -22,66 +25,43 @@ Theorem C17_mul_exact : forall x y, wf x -> wf y ->
 Proof. exact mul_correct. Qed.
 Print Assumptions C17_mul_exact.
 
-Theorem C17_inc_exact : forall x, wf x -> wf (binc x) /\ uval (binc x) = (uval x + 1) mod 2 ^ BINT_BITS.
-Proof. exact inc_correct. Qed.
-Print Assumptions C17_inc_exact.
+Theorem C17_inc_dec_unm_exact : forall x, wf x ->
+  (wf (binc x) /\ uval (binc x) = (uval x + 1) mod 2 ^ BINT_BITS) /\
+  (wf (bdec x) /\ uval (bdec x) = (uval x - 1) mod 2 ^ BINT_BITS) /\
+  (wf (bunm x) /\ uval (bunm x) = (- uval x) mod 2 ^ BINT_BITS).
+Proof. exact (fun x H => conj (inc_correct x H) (conj (dec_correct x H) (unm_correct x H))). Qed.
+Print Assumptions C17_inc_dec_unm_exact.
 
-Theorem C17_dec_exact : forall x, wf x -> wf (bdec x) /\ uval (bdec x) = (uval x - 1) mod 2 ^ BINT_BITS.
-Proof. exact dec_correct. Qed.
-Print Assumptions C17_dec_exact.
+(* ---- bitwise ---- *)
+Theorem C17_bitwise_exact : forall x y, wf x -> wf y ->
+  (wf (band x y) /\ uval (band x y) = Z.land (uval x) (uval y)) /\
+  (wf (bor x y) /\ uval (bor x y) = Z.lor (uval x) (uval y)) /\
+  (wf (bxor x y) /\ uval (bxor x y) = Z.lxor (uval x) (uval y)) /\
+  (wf (bnot x) /\ uval (bnot x) = 2 ^ BINT_BITS - 1 - uval x /\ uval (bnot x) = Z.lnot (uval x) mod 2 ^ BINT_BITS).
+Proof.
+  exact (fun x y Hx Hy => conj (band_correct x y Hx Hy) (conj (bor_correct x y Hx Hy)
+                         (conj (bxor_correct x y Hx Hy) (bnot_correct x Hx)))).
+Qed.
+Print Assumptions C17_bitwise_exact.
 
-Theorem C17_unm_exact : forall x, wf x -> wf (bunm x) /\ uval (bunm x) = (- uval x) mod 2 ^ BINT_BITS.
-Proof. exact unm_correct. Qed.
-Print Assumptions C17_unm_exact.
+(* ---- comparisons and sign ---- *)
+Theorem C17_compare_exact : forall x y, wf x -> wf y ->
+  (beq x y = true <-> uval x = uval y) /\
+  ult x y = (uval x <? uval y) /\ ule x y = (uval x <=? uval y) /\
+  blt x y = (sval x <? sval y) /\ ble x y = (sval x <=? sval y) /\
+  isneg x = (sval x <? 0).
+Proof.
+  exact (fun x y Hx Hy => conj (eq_correct x y Hx Hy) (conj (ult_correct x y Hx Hy) (conj (ule_correct x y Hx Hy)
+                         (conj (lt_correct x y Hx Hy) (conj (le_correct x y Hx Hy) (isneg_correct x Hx)))))).
+Qed.
+Print Assumptions C17_compare_exact.
 
-Theorem C17_bnot_exact : forall x, wf x ->
-  wf (bnot x) /\ uval (bnot x) = 2 ^ BINT_BITS - 1 - uval x /\ uval (bnot x) = Z.lnot (uval x) mod 2 ^ BINT_BITS.
-Proof. exact bnot_correct. Qed.
-Print Assumptions C17_bnot_exact.
-
-Theorem C17_band_exact : forall x y, wf x -> wf y -> wf (band x y) /\ uval (band x y) = Z.land (uval x) (uval y).
-Proof. exact band_correct. Qed.
-Print Assumptions C17_band_exact.
-
-Theorem C17_bor_exact : forall x y, wf x -> wf y -> wf (bor x y) /\ uval (bor x y) = Z.lor (uval x) (uval y).
-Proof. exact bor_correct. Qed.
-Print Assumptions C17_bor_exact.
-
-Theorem C17_bxor_exact : forall x y, wf x -> wf y -> wf (bxor x y) /\ uval (bxor x y) = Z.lxor (uval x) (uval y).
-Proof. exact bxor_correct. Qed.
-Print Assumptions C17_bxor_exact.
-
-Theorem C17_eq_exact : forall x y, wf x -> wf y -> beq x y = true <-> uval x = uval y.
-Proof. exact eq_correct. Qed.
-Print Assumptions C17_eq_exact.
-
-Theorem C17_ult_exact : forall x y, wf x -> wf y -> ult x y = (uval x <? uval y).
-Proof. exact ult_correct. Qed.
-Print Assumptions C17_ult_exact.
-
-Theorem C17_ule_exact : forall x y, wf x -> wf y -> ule x y = (uval x <=? uval y).
-Proof. exact ule_correct. Qed.
-Print Assumptions C17_ule_exact.
-
-Theorem C17_lt_exact : forall x y, wf x -> wf y -> blt x y = (sval x <? sval y).
-Proof. exact lt_correct. Qed.
-Print Assumptions C17_lt_exact.
-
-Theorem C17_le_exact : forall x y, wf x -> wf y -> ble x y = (sval x <=? sval y).
-Proof. exact le_correct. Qed.
-Print Assumptions C17_le_exact.
-
-Theorem C17_isneg_exact : forall x, wf x -> isneg x = (sval x <? 0).
-Proof. exact isneg_correct. Qed.
-Print Assumptions C17_isneg_exact.
-
-Theorem C17_shlone_exact : forall x, wf x -> wf (shlone x) /\ uval (shlone x) = (2 * uval x) mod 2 ^ BINT_BITS.
-Proof. exact shlone_correct. Qed.
-Print Assumptions C17_shlone_exact.
-
-Theorem C17_shrone_exact : forall x, wf x -> wf (shrone x) /\ uval (shrone x) = uval x / 2.
-Proof. exact shrone_correct. Qed.
-Print Assumptions C17_shrone_exact.
+(* ---- shifts ---- *)
+Theorem C17_shift_one_exact : forall x, wf x ->
+  (wf (shlone x) /\ uval (shlone x) = (2 * uval x) mod 2 ^ BINT_BITS) /\
+  (wf (shrone x) /\ uval (shrone x) = uval x / 2).
+Proof. exact (fun x H => conj (shlone_correct x H) (shrone_correct x H)). Qed.
+Print Assumptions C17_shift_one_exact.
 
 (* shifts by ANY Lua integer count (negative = other direction, |y| >= BITS and mininteger = 0);
    Z.shiftl with a negative count is a right shift *)
@@ -95,71 +75,6 @@ Theorem C17_shr_exact : forall x y, wf x -> in_i64 y ->
 Proof. exact shr_correct. Qed.
 Print Assumptions C17_shr_exact.
 
-(* conversions from and to Lua integers; u64 = unsigned reading, wrap64 = two's complement wrap *)
-Theorem C17_fromuinteger_exact : forall i, in_i64 i -> wf (fromuinteger i) /\ uval (fromuinteger i) = u64 i.
-Proof. exact fromuinteger_correct. Qed.
-Print Assumptions C17_fromuinteger_exact.
-
-Theorem C17_frominteger_exact : forall i, in_i64 i ->
-  wf (frominteger i) /\ uval (frominteger i) = i mod 2 ^ BINT_BITS /\ sval (frominteger i) = i.
-Proof. exact frominteger_correct. Qed.
-Print Assumptions C17_frominteger_exact.
-
-Theorem C17_touinteger_exact : forall x, wf x -> touinteger x = wrap64 (uval x).
-Proof. exact touinteger_correct. Qed.
-Print Assumptions C17_touinteger_exact.
-
-Theorem C17_tointeger_exact : forall x, wf x -> tointeger x = wrap64 (sval x).
-Proof. exact tointeger_correct. Qed.
-Print Assumptions C17_tointeger_exact.
-
-Theorem C17_integer_roundtrip : forall i, in_i64 i ->
-  tointeger (frominteger i) = i /\ touinteger (fromuinteger i) = i.
-Proof. exact (fun i H => conj (tointeger_frominteger i H) (touinteger_fromuinteger i H)). Qed.
-Print Assumptions C17_integer_roundtrip.
-
-Theorem C17_bint_roundtrip : forall x, wf x -> in_i64 (sval x) -> frominteger (tointeger x) = x.
-Proof. exact frominteger_tointeger. Qed.
-Print Assumptions C17_bint_roundtrip.
-
-(* predicates, abs / max / min, bit-width wrapping *)
-Theorem C17_iszero_exact : forall x, wf x -> biszero x = (uval x =? 0).
-Proof. exact iszero_correct. Qed.
-Print Assumptions C17_iszero_exact.
-
-Theorem C17_isone_exact : forall x, wf x -> bisone x = (uval x =? 1).
-Proof. exact isone_correct. Qed.
-Print Assumptions C17_isone_exact.
-
-Theorem C17_isminusone_exact : forall x, wf x ->
-  bisminusone x = (uval x =? 2 ^ BINT_BITS - 1) /\ bisminusone x = (sval x =? -1).
-Proof. exact isminusone_correct. Qed.
-Print Assumptions C17_isminusone_exact.
-
-Theorem C17_parity_exact : forall x, wf x -> biseven x = (uval x mod 2 =? 0) /\ bisodd x = (uval x mod 2 =? 1).
-Proof. exact iseven_correct. Qed.
-Print Assumptions C17_parity_exact.
-
-Theorem C17_limits_exact :
-  (wf bint_mininteger /\ uval bint_mininteger = 2 ^ BINT_BITS / 2 /\ sval bint_mininteger = - (2 ^ BINT_BITS / 2)) /\
-  (wf bint_maxinteger /\ uval bint_maxinteger = 2 ^ BINT_BITS / 2 - 1).
-Proof. exact (conj mininteger_correct maxinteger_correct). Qed.
-Print Assumptions C17_limits_exact.
-
-Theorem C17_abs_exact : forall x, wf x -> wf (babs x) /\ uval (babs x) = Z.abs (sval x) mod 2 ^ BINT_BITS.
-Proof. exact abs_correct. Qed.
-Print Assumptions C17_abs_exact.
-
-Theorem C17_max_exact : forall x y, wf x -> wf y ->
-  wf (bmax x y) /\ sval (bmax x y) = Z.max (sval x) (sval y) /\ (bmax x y = x \/ bmax x y = y).
-Proof. exact max_correct. Qed.
-Print Assumptions C17_max_exact.
-
-Theorem C17_min_exact : forall x y, wf x -> wf y ->
-  wf (bmin x y) /\ sval (bmin x y) = Z.min (sval x) (sval y) /\ (bmin x y = x \/ bmin x y = y).
-Proof. exact min_correct. Qed.
-Print Assumptions C17_min_exact.
-
 Theorem C17_bwrap_exact : forall x y, wf x -> in_i64 y ->
   exists r, bwrap x y = Some r /\ wf r /\ uval r = if y <=? 0 then 0 else uval x mod 2 ^ y.
 Proof. exact bwrap_correct. Qed.
@@ -167,27 +82,61 @@ Print Assumptions C17_bwrap_exact.
 
 (* rotations: a rotation (count reduced mod BITS) only for |y| <= BITS; beyond, and for
    mininteger, the unchanged code is not a rotation (known finding, replayed every run) *)
-Theorem C17_brol_partial : forall x y, wf x -> - BINT_BITS <= y <= BINT_BITS ->
-  exists r, brol x y = Some r /\ wf r /\ uval r = rotl (uval x) y.
-Proof. exact brol_partial. Qed.
-Print Assumptions C17_brol_partial.
+Theorem C17_rotate_partial : forall x y, wf x -> - BINT_BITS <= y <= BINT_BITS ->
+  (exists r, brol x y = Some r /\ wf r /\ uval r = rotl (uval x) y) /\
+  (exists r, bror x y = Some r /\ wf r /\ uval r = rotl (uval x) (- y)).
+Proof. exact (fun x y Hx Hy => conj (brol_partial x y Hx Hy) (bror_partial x y Hx Hy)). Qed.
+Print Assumptions C17_rotate_partial.
 
-Theorem C17_bror_partial : forall x y, wf x -> - BINT_BITS <= y <= BINT_BITS ->
-  exists r, bror x y = Some r /\ wf r /\ uval r = rotl (uval x) (- y).
-Proof. exact bror_partial. Qed.
-Print Assumptions C17_bror_partial.
+Theorem C17_rotate_refuted :
+  ~ (forall x y, wf x -> in_i64 y -> exists r, brol x y = Some r /\ wf r /\ uval r = rotl (uval x) y) /\
+  ~ (forall x y, wf x -> in_i64 y -> exists r, bror x y = Some r /\ wf r /\ uval r = rotl (uval x) (- y)).
+Proof. exact (conj brol_exact_refuted bror_exact_refuted). Qed.
+Print Assumptions C17_rotate_refuted.
 
-Theorem C17_brol_refuted : ~ (forall x y, wf x -> in_i64 y ->
-  exists r, brol x y = Some r /\ wf r /\ uval r = rotl (uval x) y).
-Proof. exact brol_exact_refuted. Qed.
-Print Assumptions C17_brol_refuted.
+(* ---- conversions from and to Lua integers ---- *)
+Theorem C17_integer_conv_exact :
+  (forall i, in_i64 i -> wf (fromuinteger i) /\ uval (fromuinteger i) = u64 i) /\
+  (forall i, in_i64 i -> wf (frominteger i) /\ uval (frominteger i) = i mod 2 ^ BINT_BITS /\ sval (frominteger i) = i) /\
+  (forall x, wf x -> touinteger x = wrap64 (uval x)) /\
+  (forall x, wf x -> tointeger x = wrap64 (sval x)).
+Proof. exact (conj fromuinteger_correct (conj frominteger_correct (conj touinteger_correct tointeger_correct))). Qed.
+Print Assumptions C17_integer_conv_exact.
 
-Theorem C17_bror_refuted : ~ (forall x y, wf x -> in_i64 y ->
-  exists r, bror x y = Some r /\ wf r /\ uval r = rotl (uval x) (- y)).
-Proof. exact bror_exact_refuted. Qed.
-Print Assumptions C17_bror_refuted.
+Theorem C17_integer_roundtrip :
+  (forall i, in_i64 i -> tointeger (frominteger i) = i /\ touinteger (fromuinteger i) = i) /\
+  (forall x, wf x -> in_i64 (sval x) -> frominteger (tointeger x) = x) /\
+  (forall x, wf x -> compress x = if (sval x <=? maxint) && (minint <=? sval x) then inl (sval x) else inr x).
+Proof.
+  exact (conj (fun i H => conj (tointeger_frominteger i H) (touinteger_fromuinteger i H))
+              (conj frominteger_tointeger compress_correct)).
+Qed.
+Print Assumptions C17_integer_roundtrip.
 
-(* division *)
+(* ---- predicates, limits, abs / max / min ---- *)
+Theorem C17_predicates_exact : forall x, wf x ->
+  biszero x = (uval x =? 0) /\ bisone x = (uval x =? 1) /\
+  (bisminusone x = (uval x =? 2 ^ BINT_BITS - 1) /\ bisminusone x = (sval x =? -1)) /\
+  (biseven x = (uval x mod 2 =? 0) /\ bisodd x = (uval x mod 2 =? 1)).
+Proof.
+  exact (fun x H => conj (iszero_correct x H) (conj (isone_correct x H) (conj (isminusone_correct x H) (iseven_correct x H)))).
+Qed.
+Print Assumptions C17_predicates_exact.
+
+Theorem C17_limits_exact :
+  (wf bint_mininteger /\ uval bint_mininteger = 2 ^ BINT_BITS / 2 /\ sval bint_mininteger = - (2 ^ BINT_BITS / 2)) /\
+  (wf bint_maxinteger /\ uval bint_maxinteger = 2 ^ BINT_BITS / 2 - 1).
+Proof. exact (conj mininteger_correct maxinteger_correct). Qed.
+Print Assumptions C17_limits_exact.
+
+Theorem C17_abs_max_min_exact : forall x y, wf x -> wf y ->
+  (wf (babs x) /\ uval (babs x) = Z.abs (sval x) mod 2 ^ BINT_BITS) /\
+  (wf (bmax x y) /\ sval (bmax x y) = Z.max (sval x) (sval y) /\ (bmax x y = x \/ bmax x y = y)) /\
+  (wf (bmin x y) /\ sval (bmin x y) = Z.min (sval x) (sval y) /\ (bmin x y = x \/ bmin x y = y)).
+Proof. exact (fun x y Hx Hy => conj (abs_correct x Hx) (conj (max_correct x y Hx Hy) (min_correct x y Hx Hy))). Qed.
+Print Assumptions C17_abs_max_min_exact.
+
+(* ---- division ---- *)
 Theorem C17_udivmod_exact : forall x y, wf x -> wf y ->
   (uval y = 0 -> udivmod x y = Err EDivZero) /\
   (uval y <> 0 -> exists q r, udivmod x y = Ok (q, r) /\ wf q /\ wf r /\
@@ -214,7 +163,7 @@ Theorem C17_idivmod_exact : forall x y, wf x -> wf y ->
 Proof. exact idivmod_correct. Qed.
 Print Assumptions C17_idivmod_exact.
 
-(* powers *)
+(* ---- powers ---- *)
 Theorem C17_ipow_exact : forall x y, wf x -> wf y ->
   exists r, ipow x y = Ok r /\ wf r /\ uval r = (uval x ^ uval y) mod 2 ^ BINT_BITS.
 Proof. exact ipow_correct. Qed.
@@ -259,41 +208,24 @@ Theorem C17_text_roundtrip : forall x base uo, wf x -> 2 <= base <= 36 ->
 Proof. exact frombase_tobase. Qed.
 Print Assumptions C17_text_roundtrip.
 
-(* bn.lua: integer literals in bases 2 / 16 / 10 *)
-Theorem C17_literal_bin_exact : forall neg cs, Forall (char_ok 2) cs ->
-  exists x, bn_from_bin neg cs = Ok x /\ wf x /\ uval x = ((if neg then -1 else 1) * dval 2 (map cval cs)) mod 2 ^ BINT_BITS.
-Proof. exact from_bin_correct. Qed.
-Print Assumptions C17_literal_bin_exact.
-
-Theorem C17_literal_hex_exact : forall neg cs, cs <> [] -> Forall (char_ok 16) cs ->
-  exists x, bn_from_hex neg cs = Ok x /\ wf x /\ uval x = ((if neg then -1 else 1) * dval 16 (map cval cs)) mod 2 ^ BINT_BITS.
-Proof. exact from_hex_correct. Qed.
-Print Assumptions C17_literal_hex_exact.
-
-Theorem C17_literal_dec_exact : forall sg cs, sign_ok sg -> cs <> [] -> Forall (char_ok 10) cs ->
-  exists x, bn_from_dec (sg ++ cs) = Ok x /\ wf x /\ uval x = (sign_val sg * dval 10 (map cval cs)) mod 2 ^ BINT_BITS.
-Proof. exact from_dec_correct. Qed.
-Print Assumptions C17_literal_dec_exact.
+(* bn.lua: integer literals [-]0b<digits>, [-]0x<digits>, [+-]<decimal digits> *)
+Theorem C17_literal_exact :
+  (forall neg cs, Forall (char_ok 2) cs ->
+     exists x, bn_from_bin neg cs = Ok x /\ wf x /\ uval x = ((if neg then -1 else 1) * dval 2 (map cval cs)) mod 2 ^ BINT_BITS) /\
+  (forall neg cs, cs <> [] -> Forall (char_ok 16) cs ->
+     exists x, bn_from_hex neg cs = Ok x /\ wf x /\ uval x = ((if neg then -1 else 1) * dval 16 (map cval cs)) mod 2 ^ BINT_BITS) /\
+  (forall sg cs, sign_ok sg -> cs <> [] -> Forall (char_ok 10) cs ->
+     exists x, bn_from_dec (sg ++ cs) = Ok x /\ wf x /\ uval x = (sign_val sg * dval 10 (map cval cs)) mod 2 ^ BINT_BITS).
+Proof. exact (conj from_bin_correct (conj from_hex_correct from_dec_correct)). Qed.
+Print Assumptions C17_literal_exact.
 
 (* bn.lua: todecint / tohexint / tobinint (bits = nil or a Lua integer: wrap to that many bits first) *)
-Theorem C17_todecint_exact : forall v, wf v ->
-  exists ds, todecint v = Ok ((if sval v <? 0 then [45] else []) ++ map digit_char ds) /\ canon 10 ds (Z.abs (sval v)).
-Proof. exact todecint_correct. Qed.
-Print Assumptions C17_todecint_exact.
-
-Theorem C17_tohexint_exact : forall v bits, wf v -> (forall b, bits = Some b -> in_i64 b) ->
-  exists ds, tohexint v bits = Ok (map digit_char ds) /\
-    canon 16 ds (match bits with None => uval v | Some b => if b <=? 0 then 0 else uval v mod 2 ^ b end).
-Proof. exact tohexint_correct. Qed.
-Print Assumptions C17_tohexint_exact.
-
-Theorem C17_tobinint_exact : forall v bits, wf v -> (forall b, bits = Some b -> in_i64 b) ->
-  exists ds, tobinint v bits = Ok (map digit_char ds) /\
-    canon 2 ds (match bits with None => uval v | Some b => if b <=? 0 then 0 else uval v mod 2 ^ b end).
-Proof. exact tobinint_correct. Qed.
-Print Assumptions C17_tobinint_exact.
-
-Theorem C17_compress_exact : forall x, wf x ->
-  compress x = if (sval x <=? maxint) && (minint <=? sval x) then inl (sval x) else inr x.
-Proof. exact compress_correct. Qed.
-Print Assumptions C17_compress_exact.
+Theorem C17_intstring_exact : forall v bits, wf v -> (forall b, bits = Some b -> in_i64 b) ->
+  let w := match bits with None => uval v | Some b => if b <=? 0 then 0 else uval v mod 2 ^ b end in
+  (exists ds, todecint v = Ok ((if sval v <? 0 then [45] else []) ++ map digit_char ds) /\ canon 10 ds (Z.abs (sval v))) /\
+  (exists ds, tohexint v bits = Ok (map digit_char ds) /\ canon 16 ds w) /\
+  (exists ds, tobinint v bits = Ok (map digit_char ds) /\ canon 2 ds w).
+Proof.
+  exact (fun v bits Hv Hb => conj (todecint_correct v Hv) (conj (tohexint_correct v bits Hv Hb) (tobinint_correct v bits Hv Hb))).
+Qed.
+Print Assumptions C17_intstring_exact.
